@@ -190,6 +190,42 @@ Section CKD.
         + injection H as ->. reflexivity.
     Qed.
 
+    (* the address validator: accepted => the string decodes to version byte :: rest followed by the
+       matching 4-byte checksum *)
+    Theorem validator_sound v a : is_version_address dsha v a = Ok true ->
+      exists r, b58_decode_check dsha a = Ok (v :: r) /\ b58_decode a = Ok ((v :: r) ++ checksum dsha (v :: r)).
+    Proof.
+      unfold is_version_address. destruct (b58_decode_check dsha a) as [p|e] eqn:E; [|discriminate].
+      cbn [bind]. destruct p as [|b r]; [discriminate|]. intro H. injection H as H. apply byte_eqb_eq in H. subst b.
+      exists r. split; [reflexivity|]. apply b58check_accepts_only_matching. exact E.
+    Qed.
+
+    Theorem validator_accepts_address c pk a : c <> x00 -> (4 <= length (dsha ([c] ++ hash160 pk)))%nat ->
+      address hash160 dsha [c] pk = Ok a -> is_version_address dsha c a = Ok true.
+    Proof.
+      intros Hc Hl Ha. destruct (address_roundtrip [c] pk c [] eq_refl Hc Hl) as [a' [Ea Da]].
+      assert (a' = a) by congruence. subst a'. unfold is_version_address. rewrite Da. cbn [bind app].
+      rewrite byte_eqb_refl. reflexivity.
+    Qed.
+
+    (* a different string accepted by the validator is never an alias of this address: it carries a different
+       payload (whose own checksum matches) *)
+    Theorem validator_no_alias c pk a a' : address hash160 dsha [c] pk = Ok a -> c <> x00 ->
+      (4 <= length (dsha ([c] ++ hash160 pk)))%nat -> a' <> a -> is_version_address dsha c a' = Ok true ->
+      exists r, b58_decode_check dsha a' = Ok (c :: r) /\ r <> hash160 pk.
+    Proof.
+      intros Ha Hc Hl Hne Hv. destruct (validator_sound c a' Hv) as [r [Hd _]]. exists r. split; [exact Hd|].
+      intro E. subst r. destruct (address_roundtrip [c] pk c [] eq_refl Hc Hl) as [a0 [Ea Da]].
+      assert (a0 = a) by congruence. subst a0. apply Hne. exact (b58check_inj dsha a' a _ Hd Da).
+    Qed.
+
+    Theorem valid_address_sound pv sv allow a : valid_address dsha pv sv allow a = true ->
+      is_version_address dsha pv a = Ok true \/ (allow = true /\ is_version_address dsha sv a = Ok true).
+    Proof.
+      unfold valid_address. destruct (is_version_address dsha pv a) as [[|]|]; [auto | | discriminate].
+      destruct allow; [|discriminate]. destruct (is_version_address dsha sv a) as [[|]|]; try discriminate. auto.
+    Qed.
+
     (* equal addresses come from equal key hashes *)
     Theorem address_injective prefix pk1 pk2 a c r : prefix = c :: r -> c <> x00 ->
       (4 <= length (dsha (prefix ++ hash160 pk1)))%nat -> (4 <= length (dsha (prefix ++ hash160 pk2)))%nat ->
